@@ -16,6 +16,8 @@ package context
 import (
 	"context"
 	"sync"
+
+	"github.com/dapr/kit/verifhook"
 )
 
 // Pool is a pool of contexts whereby the callee context is only cancelled when
@@ -51,6 +53,7 @@ func NewPool(ctx ...context.Context) *Pool {
 	p.lock.RLock()
 	go func() {
 		defer cancel()
+		defer verifhook.Point("pool.watch.beforeCancel")
 		defer p.lock.RUnlock()
 		for i := 0; i < len(p.pool); i++ {
 			ch := p.pool[i]
@@ -59,6 +62,7 @@ func NewPool(ctx ...context.Context) *Pool {
 			case <-ch:
 			case <-p.closed:
 			}
+			verifhook.Point("pool.watch.afterWait", i)
 			p.lock.RLock()
 		}
 	}()
